@@ -1010,6 +1010,7 @@ func (c *RPCClient) SendRequest(ctx context.Context, addr string, req *tikvrpc.R
 		r := req.RawBatchDelete()
 		if err := session.checkRequest(reqCtx, r.Size()); err != nil {
 			resp.Resp = &kvrpcpb.RawBatchDeleteResponse{RegionError: err}
+			return resp, nil
 		}
 		resp.Resp = kvHandler{session}.handleKvRawBatchDelete(r)
 	case tikvrpc.CmdRawDeleteRange:
